@@ -3,3 +3,4 @@ pub mod data;
 pub mod show;
 pub mod tracewf;
 pub mod scope;
+pub mod eval;
